@@ -40,7 +40,10 @@ def _raises_invalid(block) -> bool:
     "comparison excludes at most library_folders",
 )
 def r20_1(ctx, rep):
-    R = "R20.1"
+    cache_validity(ctx, rep, "R20.1")
+
+
+def cache_validity(ctx, rep, R):
     fn = api_fn(ctx, "load_model", R)
     site = API + ":load_model"
     cfg = CFG(fn, R)
@@ -88,7 +91,11 @@ def r20_1(ctx, rep):
     for s in walk_local(fn):
         if isinstance(s, ast.Assign) and isinstance(s.value, ast.DictComp) and isinstance(s.targets[0], ast.Name):
             g = s.value.generators[0]
-            sides[s.targets[0].id] = (norm(g.iter), norm(g.ifs[0]) if g.ifs else "")
+            # the pairs are compared as they are: `{k: v for k, v in <options>.items() if <filter on k>}`
+            plain = isinstance(g.target, ast.Tuple) and len(g.target.elts) == 2 and all(isinstance(e, ast.Name) for e in g.target.elts) \
+                and is_name(s.value.key, g.target.elts[0].id) and is_name(s.value.value, g.target.elts[1].id) \
+                and not any(isinstance(x, ast.Name) and x.id == g.target.elts[1].id for f in g.ifs for x in ast.walk(f))
+            sides[s.targets[0].id] = (norm(g.iter), norm(g.ifs[0]) if g.ifs else "", plain)
     # the filter of both comprehensions is `<key> not in <literal list>`: that list names the options that are NOT compared
     excl_names = set()
     for s in walk_local(fn):
@@ -101,14 +108,19 @@ def r20_1(ctx, rep):
     for s in walk_local(fn):
         if isinstance(s, ast.Assign) and isinstance(s.targets[0], ast.Name) and s.targets[0].id in excl_names:
             excl = literal(s.value)
-    cmp_ok = False
+    cmp_ok = vals_ok = False
     for x in cfg.nodes:
         if x.id in options:
             a, b = x.ast.left.id, x.ast.comparators[0].id
             if a in sides and b in sides:
                 srcs = {sides[a][0], sides[b][0]}
                 cmp_ok = srcs == {"db['options'].items()", "compiler_options.items()"} and sides[a][1] == sides[b][1]
+                vals_ok = sides[a][2] and sides[b][2]
     rep.ob(R, site, "options comparison sides", cmp_ok, "the stored options (db['options']) must be compared with the current merged options under the same filter")
+    rep.ob(R, site, "option values compared unchanged", cmp_ok and vals_ok,
+           "each side of the comparison must be the (name, value) pairs themselves; a side that maps values through a function, keeps only the "
+           "names, or filters on the value makes two different settings of a non-boolean option (eliminable_variable_expression) look equal "
+           "and a cache compiled for the other setting is served")
     rep.ob(R, site, "excluded option keys", excl is not None and set(excl) <= {"library_folders"},
            "only library_folders may be ignored when comparing options; found %s" % (excl,))
     # mtime
